@@ -20,6 +20,7 @@ def run(ctx, sess):
     ctx.rule('C15.2', 'summaries do not depend on omission: from both arms of the omit branch every success path passes the level-1 summary, the timestamp advance and the count reset; the summary path never reads the file')
     ctx.rule('C15.3', 'marker agreement: the writer records index entry 0 for an omitted block and the reader treats offset 0 as omitted (reconstruction, no seek)')
     ctx.rule('C15.4', 'reconstruction covers what may be omitted: exact arms for u8/u4/u1 and float types, every arm counts what it fills; automatic omission applies to widths <= 8')
+    ctx.rule('C15.6', 'automatic omission is decided only by a predicate that examines every byte of the block (a stored block is never replaced by a synthesised one unless it is constant)')
     ctx.rule('C15.5', 'the omission state is stored only by the API entry and by the per-block shift')
     f = P.fn('wr_data', 'src/wr_fsr.c')
     ctx.saw(f)
@@ -126,6 +127,22 @@ def run(ctx, sess):
             c = const_of(e['k'][1])
             thr = c if e['o'] == '<=' else c - 1
     ctx.ob('C15.4', thr == 8, f.name, 'automatic omission only for widths <= 8', f.where(), 'threshold %s' % thr)
+    # ---- C15.6 (shared with C09.7)
+    from .c09 import omission_criterion
+
+    class Sub:
+        def __init__(self, ctx):
+            self.ctx = ctx
+
+        def __getattr__(self, k):
+            return getattr(self.ctx, k)
+
+        def ob(self, rid, ok, fn, construct, where='', detail='', witness=None):
+            return self.ctx.ob('C15.6', ok, fn, construct, where, detail, witness)
+
+        def floor(self, *a):
+            pass
+    omission_criterion(Sub(ctx), P)
     # ---- C15.5
     n = 0
     allowed = {'wr_data', 'jls_wr_fsr_omit_data'}
